@@ -135,13 +135,13 @@ def drive_a(rec, cases):
     rec.data["replayed"] = replayed
 
 
-def patterns(k, asz, n, rng):
+def patterns(k, asz, n, rng, overlay=True):
     """(asz x n) int64 matrix of in-domain limbs (|a_i| <= 2^62) stressing carries."""
     M = 1 << 62
     half = 1 << (k - 1)
     cols = []
     for c in range(n):
-        kind = c % 8
+        kind = c % 10
         col = []
         for i in range(asz):
             if kind == 0:
@@ -158,13 +158,17 @@ def patterns(k, asz, n, rng):
                 v = rng.choice([half, half - 1, -half, -half - 1, 0, 1, -1])
             elif kind == 5:
                 v = rng.choice([M, -M, M - 1, -M + 1, half, -half])
+            elif kind == 8:   # every limb at the upper bound (the carry grows to 2^62 over 64 limbs of k = 1)
+                v = M
+            elif kind == 9:
+                v = -M
             else:
                 v = rng.randrange(-M, M + 1)
             col.append(max(-M, min(M, v)))
         cols.append(col)
     A = np.array(cols, dtype=np.int64).T.reshape(asz, n)
     # whole limbs that are the zero polynomial or one constant (a limb-level shortcut must still pass the carries on)
-    for i in range(asz):
+    for i in range(asz if overlay else 0):
         u = rng.random()
         if u < 0.12:
             A[i, :] = 0
@@ -181,13 +185,19 @@ def drive_b(rec, ks, quick):
     events = []
     for k in ks:
         nrep = 3 if quick else 8
-        for rep in range(nrep + 1):
+        long_chain = (k in (1, 2, 7, 16, 19, 31, 62)) or not quick
+        for rep in range(nrep + (2 if long_chain else 1)):
             asz = rng.randrange(1, 6)
             rsz = rng.choice([0, asz, asz, max(0, asz - 1), asz + 1, rng.randrange(0, 7)])
+            overlay = True
             if rep == nrep:     # directed: many dropped low limbs (more than 64 bits of them) under a maximal carry chain
                 rsz = rng.choice([0, 1, 1, 2])
                 asz = rsz + 64 // k + 2 + rng.randrange(1, 3)
-            A = patterns(k, asz, n, rng)
+            if rep == nrep + 1:  # directed: carry chains over more than 64 and more than 128 dropped limbs, whatever k (every limb on the
+                rsz = rng.choice([1, 2, 4, 60])     # digit boundary, or every limb at +-2^62), and results that lie far above the dropped part
+                asz = rsz + rng.choice([65, 66, 67, 70, 126, 129, 130, 136])
+                overlay = False
+            A = patterns(k, asz, n, rng, overlay)
             variant, mk = eps[(k + rep) % len(eps)]
             alias = rng.random() < 0.3 and variant != "range"
             rs = range_for(asz, rng) if variant == "range" else None
